@@ -172,7 +172,7 @@ pub fn run(tier: &str) -> i32 {
     run_space(&Inject { k: 1 }, None, &caps, &rep);
     run_space(&Inject { k: 2 }, None, &caps, &rep);
     if tier != "quick" {
-        run_space(&Inject { k: 3 }, Some(4), &caps, &rep);
+        run_space(&Inject { k: 3 }, Some(6), &caps, &rep);
     }
     run_space(&NameRule, None, &caps, &rep);
     // "an input that breaks none is never rejected": the semantic spaces are valid by construction
